@@ -464,10 +464,10 @@ pub mod fnv1a64 {
     ] + OWNED_FNS + [
         dict(kind="raw", name="<mod-owned-close>", text="}\n"),
     ],
-    trailer="""
+    trailer_parts=[(["hash_update"], """
 fn smoke_hash() {
     let s = fnv1a64::hash_update(0xcbf2_9ce4_8422_2325u64, &[0x11u8]);
     assert(s == fnv_step(0xcbf2_9ce4_8422_2325u64, 0x11u8));
 }
-""",
+""")],
 )
